@@ -899,6 +899,15 @@ class Interp:
                                         "range", e), e3, s3
                 elif isinstance(o, dict):
                     k = self.ev1(e.slice, env2, st2, ctx)
+                    if not _concrete_key(k):
+                        reg = self._convf(o, "<dict>")
+                        for v, e3, s3 in self.regget(
+                                reg, [k, ("__missing__",)], env2, st2):
+                            if v == ("__missing__",):
+                                yield Raise("KeyError", e), e3, s3
+                            else:
+                                yield v, e3, s3
+                        continue
                     if k not in o:
                         raise Raise("KeyError: %r" % (k,), e)
                     yield o[k], env2, st2
@@ -967,6 +976,19 @@ class Interp:
                 return
             l = self.ev1(e.left, env, st, ctx)
             r = self.ev1(e.comparators[0], env, st, ctx)
+            if isinstance(e.ops[0], (ast.Is, ast.IsNot)) and type(
+                    l) is int and type(r) is int and any(
+                        self._names_enum_member(x, ctx) for x in (
+                            e.left, e.comparators[0])) and not any(
+                                isinstance(x, ast.Constant) for x in (
+                                    e.left, e.comparators[0])):
+                # identity with an enum member written out in the source:
+                # members are singletons (this interpreter carries them as
+                # their values), so it is equality with the member's value
+                res = l == r
+                yield (res if isinstance(e.ops[0], ast.Is) else not res), \
+                    env, st
+                return
             if isinstance(e.ops[0], (ast.In, ast.NotIn)) and \
                     isinstance(l, IvInt) and isinstance(r, range) and \
                     r.step == 1:
@@ -1286,6 +1308,21 @@ class Interp:
         raise Unsupported("operator %s on %r, %r" % (type(op).__name__, l,
                                                      r))
 
+    def _names_enum_member(self, e, ctx):
+        """Is the expression a dotted name that the folder resolves to an
+        enum member (`EventScheme.device`)?"""
+        r_ = e
+        while isinstance(r_, ast.Attribute):
+            r_ = r_.value
+        if not (isinstance(e, ast.Attribute) and isinstance(r_, ast.Name)):
+            return False
+        try:
+            owner = ctx.get("owner")
+            v = self.folder.eval(e, {}, ctx.get("mod"), owner)
+        except Exception:
+            return False
+        return isinstance(v, EnumMember)
+
     def compare(self, op, l, r, st=None):
         if isinstance(op, (ast.Is, ast.IsNot)):
             if isinstance(l, ABool) and isinstance(r, bool):
@@ -1588,6 +1625,16 @@ class Interp:
         if isinstance(f, tuple) and f and f[0] in ("dictpop", "dictget"):
             d = f[1]
             k = args[0]
+
+            if not _concrete_key(k):
+                # a key computed from the frame: every entry it can equal
+                # is a world of its own (as for registries)
+                if f[0] != "dictget":
+                    raise Unsupported("dict.pop with a symbolic key")
+                reg = self._convf(d, "<dict>")
+                a2 = [k] + ([args[1]] if len(args) > 1 else [])
+                yield from self.regget(reg, a2, env, st)
+                return
             if k in d:
                 v = d[k]
             elif len(args) > 1:
@@ -1856,6 +1903,11 @@ class Interp:
         s2.neg.extend(n for n in negs if n)
         if not any(not n for n in negs) and satisfiable(s2):
             yield default, e2, s2
+
+
+def _concrete_key(x):
+    return x is None or type(x) in (int, str, bool, bytes) or (
+        isinstance(x, tuple) and all(_concrete_key(y) for y in x))
 
 
 class Either:
